@@ -3,6 +3,7 @@ package main
 import (
 	"fmt"
 	"math/big"
+	"regexp"
 	"unicode/utf8"
 
 	"github.com/kstenerud/go-concise-encoding/ce/events"
@@ -96,11 +97,11 @@ func isStringlikeValidated(t events.ArrayType) bool {
 // object classes
 const (
 	ocNull        = "null"
-	ocKeyable     = "keyable"     // keyable scalar
-	ocNonKeyable  = "nonkeyable"  // float
+	ocKeyable     = "keyable"    // keyable scalar
+	ocNonKeyable  = "nonkeyable" // float
 	ocNan         = "nan"
 	ocContainer   = "container"
-	ocKeyArray    = "keyarray"    // string / resource id
+	ocKeyArray    = "keyarray" // string / resource id
 	ocOtherArray  = "otherarray"
 	ocRemoteArray = "remote"
 )
@@ -491,24 +492,27 @@ func (s *wfState) step(e Ev) bool {
 			return false
 		}
 	case "media":
-		if !utf8.ValidString(e.S) || !s.lengthOK(uint64(len(e.Data))) {
+		if !utf8.ValidString(e.S) || !wfMediaType(e.S) || !s.lengthOK(uint64(len(e.Data))) {
 			return false
 		}
 	case "cb":
-		if !s.lengthOK(uint64(len(e.Data))) {
+		if e.N > 0xffffffff || !s.lengthOK(uint64(len(e.Data))) {
 			return false
 		}
 	case "ct":
-		if !utf8.Valid(e.Data) || !s.lengthOK(uint64(len(e.Data))) {
+		if e.N > 0xffffffff || !utf8.Valid(e.Data) || !s.lengthOK(uint64(len(e.Data))) {
 			return false
 		}
 	case "ab", "mb", "cbeg":
 		t := e.A
 		if e.K == "mb" {
 			t = events.ArrayTypeMedia
-			if !utf8.ValidString(e.S) {
+			if !utf8.ValidString(e.S) || !wfMediaType(e.S) {
 				return false
 			}
+		}
+		if e.K == "cbeg" && e.N > 0xffffffff {
+			return false
 		}
 		kindDen := ""
 		if t == events.ArrayTypeString {
@@ -604,3 +608,9 @@ func wfCheckRelaxed(es []Ev, maxArray uint64, maxIdent int, floatKeyRef, chunked
 }
 
 var _ = big.NewInt
+
+// wfMediaType: type "/" subtype (RFC 6838 restricted-name characters as far as
+// the CTE grammar admits them), written independently of the library.
+var wfMediaTypeRe = regexp.MustCompile("^[a-zA-Z][a-zA-Z0-9!#$%&'*+.^_`|~{}-]*/[a-zA-Z0-9!#$%&'*+.^_`|~{}-]+$")
+
+func wfMediaType(s string) bool { return wfMediaTypeRe.MatchString(s) }
